@@ -483,6 +483,10 @@ func (app *App) stateManager() appState {
 				}
 				return stateManager
 			}
+			if clusterState[master] == nil {
+				app.logger.Error().Msgf("master %s is recorded in dcs but is not a registered cluster host, cannot perform switchover", master)
+				return stateManager
+			}
 			err = app.approveSwitchover(switchover, activeNodes, clusterState)
 			if err != nil {
 				app.logger.Error().Err(err).Msg("cannot perform switchover")
